@@ -32,7 +32,7 @@ CLASS_KW = ["default", "const", "enum", "required", "minProperties", "maxPropert
 
 PY_NAMES = ["a", "b", "c", "d", "foo", "bar", "x1", "name_"]
 RENAMES = {"class_": "class", "a_b": "a-b", "for_": "for", "first": "1st", "e_acute": "é", "my_name": "my name",
-           "dollar": "$x", "type_": "type"}
+           "dollar": "$x", "type_": "type", "blank": ""}
 
 
 class Gen:
